@@ -1,0 +1,188 @@
+//! Verification seam S (compiled only with `--cfg prqlc_verif`).
+//!
+//! Drop-in `RwLock` / `OnceLock` whose blocking operations are *scheduling points*: before a
+//! thread acquires the lock or enters a first initialisation it reports an [Event] to a
+//! process-global hook installed by a model checker, which decides which thread proceeds.
+//! A thread that would block says so (`*Blocked`) instead of sleeping inside std, so a
+//! cooperative scheduler never hangs on a lock held by a thread it has parked.
+//! With no hook installed (or for threads the hook does not manage) both types behave like
+//! their std counterparts. `reset()` makes every `OnceLock` look uninitialised again, so
+//! each explored execution can start from the state of a fresh process.
+
+use std::sync::atomic::{AtomicBool, AtomicU64, Ordering};
+use std::sync::{Arc, LockResult, RwLockReadGuard, RwLockWriteGuard, TryLockError};
+
+#[derive(Clone, Copy, Debug, PartialEq, Eq)]
+pub enum Kind {
+    /// an explicit scheduling point
+    Point,
+    /// about to try to take a lock
+    LockAcquire,
+    /// the lock was held by someone else; the caller will retry
+    LockBlocked,
+    /// about to run (or wait for) the first initialisation of a cell
+    OnceEnter,
+    /// the initialisation is running on another thread; the caller will retry
+    OnceBlocked,
+}
+
+#[derive(Clone, Copy, Debug)]
+pub struct Event {
+    pub kind: Kind,
+    /// address of the primitive, or 0 for [Kind::Point]
+    pub resource: usize,
+    pub label: &'static str,
+}
+
+/// Returns `true` if the calling thread is managed by the scheduler.
+pub type Hook = Arc<dyn Fn(&Event) -> bool + Send + Sync>;
+
+static HOOK: std::sync::RwLock<Option<Hook>> = std::sync::RwLock::new(None);
+static EPOCH: AtomicU64 = AtomicU64::new(0);
+
+pub fn set_hook(h: Option<Hook>) {
+    *HOOK.write().unwrap_or_else(|e| e.into_inner()) = h;
+}
+
+/// Every `OnceLock` of this module becomes uninitialised.
+pub fn reset() {
+    EPOCH.fetch_add(1, Ordering::SeqCst);
+}
+
+fn emit(kind: Kind, resource: usize, label: &'static str) -> bool {
+    let h = HOOK.read().unwrap_or_else(|e| e.into_inner()).clone();
+    match h {
+        Some(h) => h(&Event {
+            kind,
+            resource,
+            label,
+        }),
+        None => false,
+    }
+}
+
+/// An explicit scheduling point.
+pub fn point(label: &'static str) {
+    emit(Kind::Point, 0, label);
+}
+
+pub struct RwLock<T> {
+    inner: std::sync::RwLock<T>,
+}
+
+impl<T> RwLock<T> {
+    pub const fn new(t: T) -> Self {
+        RwLock {
+            inner: std::sync::RwLock::new(t),
+        }
+    }
+
+    fn addr(&self) -> usize {
+        self as *const Self as usize
+    }
+
+    pub fn write(&self) -> LockResult<RwLockWriteGuard<'_, T>> {
+        loop {
+            if !emit(Kind::LockAcquire, self.addr(), "rwlock-write") {
+                return self.inner.write();
+            }
+            match self.inner.try_write() {
+                Ok(g) => return Ok(g),
+                Err(TryLockError::Poisoned(p)) => return Err(p),
+                Err(TryLockError::WouldBlock) => {
+                    emit(Kind::LockBlocked, self.addr(), "rwlock-write");
+                }
+            }
+        }
+    }
+
+    pub fn read(&self) -> LockResult<RwLockReadGuard<'_, T>> {
+        loop {
+            if !emit(Kind::LockAcquire, self.addr(), "rwlock-read") {
+                return self.inner.read();
+            }
+            match self.inner.try_read() {
+                Ok(g) => return Ok(g),
+                Err(TryLockError::Poisoned(p)) => return Err(p),
+                Err(TryLockError::WouldBlock) => {
+                    emit(Kind::LockBlocked, self.addr(), "rwlock-read");
+                }
+            }
+        }
+    }
+}
+
+pub struct OnceLock<T: 'static> {
+    slot: std::sync::RwLock<Option<(u64, &'static T)>>,
+    busy: AtomicBool,
+}
+
+impl<T: 'static> Default for OnceLock<T> {
+    fn default() -> Self {
+        Self::new()
+    }
+}
+
+struct ClearOnDrop<'a>(&'a AtomicBool);
+
+impl Drop for ClearOnDrop<'_> {
+    fn drop(&mut self) {
+        self.0.store(false, Ordering::SeqCst);
+    }
+}
+
+impl<T: 'static> OnceLock<T> {
+    pub const fn new() -> Self {
+        OnceLock {
+            slot: std::sync::RwLock::new(None),
+            busy: AtomicBool::new(false),
+        }
+    }
+
+    fn addr(&self) -> usize {
+        self as *const Self as usize
+    }
+
+    pub fn get(&self) -> Option<&T> {
+        let slot = self.slot.read().unwrap_or_else(|e| e.into_inner());
+        match *slot {
+            Some((epoch, v)) if epoch == EPOCH.load(Ordering::SeqCst) => Some(v),
+            _ => None,
+        }
+    }
+
+    pub fn get_or_init<F: FnOnce() -> T>(&self, f: F) -> &T {
+        // An initialised cell is immutable (until `reset`): reading it commutes with
+        // everything else and is not a scheduling point.
+        if let Some(v) = self.get() {
+            return v;
+        }
+        let mut f = Some(f);
+        loop {
+            let managed = emit(Kind::OnceEnter, self.addr(), "once");
+            if let Some(v) = self.get() {
+                return v;
+            }
+            if self
+                .busy
+                .compare_exchange(false, true, Ordering::SeqCst, Ordering::SeqCst)
+                .is_ok()
+            {
+                let _clear = ClearOnDrop(&self.busy);
+                // another thread may have completed the initialisation meanwhile
+                if let Some(v) = self.get() {
+                    return v;
+                }
+                let v: &'static T = Box::leak(Box::new((f.take().unwrap())()));
+                let epoch = EPOCH.load(Ordering::SeqCst);
+                *self.slot.write().unwrap_or_else(|e| e.into_inner()) = Some((epoch, v));
+                return v;
+            }
+            if managed {
+                emit(Kind::OnceBlocked, self.addr(), "once");
+            } else {
+                std::thread::yield_now();
+            }
+        }
+    }
+}
